@@ -191,6 +191,7 @@ func init() {
 		Assumptions: []string{"callers that obtain the raw codec through the exported Encoder()/Decoder() accessors are outside the premise",
 			"the 60 s send time-out arm of sendRuntimeMessage (transport stall) is outside the premise"},
 		Rules: []func(*Ctx){
+			func(c *Ctx) { c.rulePair("R-PAIR") },
 			func(c *Ctx) { c.ruleDecoderExclusive("R-DECODERX"); c.R.Floor("R-DECODERX", 3) },
 			func(c *Ctx) { c.ruleOneDecoder("R-ONEDECODER") },
 			func(c *Ctx) { c.ruleFreshDecode("R-FRESHDEC", c.scopePkg("atp")); c.R.Floor("R-FRESHDEC", 2) },
